@@ -669,3 +669,39 @@ add("MG1", "keep", CORE, ARM, "summary = pd.concat({'All': summary}, names=[data
     "order = [level, *other_levels]\n        summary = pd.concat({'All': summary}, names=[data.index.names[lvl] for lvl in order])\n        summary.index = summary.index.reorder_levels(np.argsort(order))", name="MG1 order in a local")
 add("MG1", "keep", CORE, ARM, "other_levels = [lvl for lvl in all_levels if lvl != level]", "other_levels = [lvl for lvl in all_levels if level != lvl]", name="MG1 comparison commuted")
 add("MG1", "keep", CORE, ARM, "summary = add_row_margin(summary, agg_func)", "summary = add_row_margin(summary, agg_func=agg_func)", name="MG1 keyword recursion")
+
+# H1 (second half): the counter of _find_first_or_last_n
+FFL = "_find_first_or_last_n"
+add("H1", "break", NB, FFL, "            out[k, j] = i\n            seen[k] += 1", "            out[k, j] = i", name="H1 head counter never advances (every row overwrites slot 0)")
+add("H1", "break", NB, FFL, "            out[k, j] = i\n            seen[k] += 1", "            out[k, j] = i\n            seen[k] += 2", name="H1 head counter advances by two")
+add("H1", "break", NB, FFL, "        j = seen[k]\n        if j < n:\n            out[k, j] = i\n            seen[k] += 1", "        seen[k] += 1\n        j = seen[k]\n        if j < n:\n            out[k, j] = i", name="H1 head counter advanced before the slot is read")
+add("H1", "break", NB, FFL, "        if masked and (not mask[i]):\n            continue\n", "", name="H1 head ignores the mask", also=())
+add("H1", "keep", NB, FFL, "            out[k, j] = i\n            seen[k] += 1", "            out[k, j] = i\n            seen[k] = j + 1", name="H1 counter set from the slot")
+add("H1", "keep", NB, FFL, "        if k < 0:\n            continue\n        if masked and (not mask[i]):\n            continue\n", "        if k < 0 or (masked and (not mask[i])):\n            continue\n", name="H1 head guards merged")
+add("H1", "keep", NB, FFL, "        j = seen[k]\n        if j < n:\n            out[k, j] = i\n            seen[k] += 1", "        if seen[k] >= n:\n            continue\n        out[k, seen[k]] = i\n        seen[k] += 1", name="H1 head early continue, no slot local")
+
+# --------------------------------------------------------------------------------------------- K7 / D9b
+BAD = "GroupBy._build_arg_dict_for_function"
+RMC = "GroupBy._resolve_mask_argument_into_chunks"
+
+
+def _m(s: str) -> str:
+    """fragment written at function-body indentation -> method-body indentation (add() dedents method fragments again)"""
+    return "".join(("    " + l if l.strip() else l) for l in s.splitlines(True))
+
+
+_K7_GUARD = "    if mask is not None and (not (pd.api.types.is_bool_dtype(mask) or (isinstance(mask, pl.Series) and mask.dtype == pl.Boolean))):\n        raise TypeError('mask must be a boolean array')\n"
+add("K7", "break", CORE, BAD, _m(_K7_GUARD), "", name="K7 row-wise binder without a boolean test (the defect repaired in 1587edf)")
+add("K7", "break", CORE, BAD, _m(_K7_GUARD), _m("    if mask is not None and isinstance(mask, slice):\n        raise TypeError('mask must be a boolean array')\n"), name="K7 only slices rejected, positions pass")
+add("K7", "break", CORE, BAD, _m(_K7_GUARD), _m("    if mask is not None and (not (pd.api.types.is_bool_dtype(mask) or isinstance(mask, pl.Series))):\n        raise TypeError('mask must be a boolean array')\n"), name="K7 any polars series passes")
+add("K7", "break", EMAS, "ema_grouped", "        if mask.dtype.kind != 'b':\n            raise TypeError('mask must be a boolean array')\n", "", name="K7 ema_grouped without a boolean test (the defect repaired in b4e05aa)")
+add("K7", "break", EMAS, "ema_grouped", "if mask.dtype.kind != 'b':", "if mask.dtype.kind == 'O':", name="K7 ema_grouped rejects object arrays only")
+add("K7", "keep", CORE, BAD, _m(_K7_GUARD), _m("    if mask is not None:\n        if not pd.api.types.is_bool_dtype(mask):\n            if not (isinstance(mask, pl.Series) and mask.dtype == pl.Boolean):\n                raise TypeError('mask must be a boolean array')\n"), name="K7 nested tests")
+add("K7", "keep", CORE, BAD, _m(_K7_GUARD), _m("    mask_is_boolean = pd.api.types.is_bool_dtype(mask) or (isinstance(mask, pl.Series) and mask.dtype == pl.Boolean)\n    if mask is not None and (not mask_is_boolean):\n        raise TypeError('mask must be a boolean array')\n"), name="K7 test through a flag")
+add("K7", "keep", EMAS, "ema_grouped", "if mask.dtype.kind != 'b':", "if not mask.dtype == bool:", name="K7 dtype == bool")
+
+add("D9b", "break", CORE, RMC, "if self.key_is_chunked and mask is not None and (not mask_is_boolean):", "if False:", name="D9b positions scattered on chunked keys (the defect repaired in 2bde3fe)")
+add("D9b", "break", CORE, RMC, _m("        mask_chunks = mask_chunks[first_chunk_in:]\n"), _m("        mask_chunks = mask_chunks[first_chunk_in:]\n        if mask.step is not None:\n            rows = np.full(len(self), False)\n            rows[mask] = True\n            mask = rows\n"), name="D9b stepped slice scattered into a row mask")
+add("D9b", "keep", CORE, RMC, "if self.key_is_chunked and mask is not None and (not mask_is_boolean):", "if self.key_is_chunked and (not mask_is_boolean) and (mask is not None):", name="D9b conjuncts reordered")
+add("D9b", "keep", CORE, RMC, _m("            if not pd.api.types.is_bool_dtype(mask):\n                bool_mask = np.full(len(self), False)\n                bool_mask[mask] = True\n                mask = bool_mask\n"),
+    _m("            if not pd.api.types.is_bool_dtype(mask):\n                bool_mask = np.zeros(len(self), dtype=bool)\n                bool_mask[mask] = True\n                mask = bool_mask\n"), name="D9b np.zeros bool")
